@@ -8,7 +8,8 @@ import dataq
 REQUIRED = ['rcpt_limit', 'rcpt_below_limit_accepted', 'rcptcount_is_list_length', 'bad_command_counts', 'bad_commands_disconnect',
             'good_command_resets', 'size_param', 'size_param_ok', 'limits_as_in_source',
             'size_limit_no_handoff', 'oversize_not_accepted', 'hop_limit_no_handoff', 'overhops_not_accepted', 'received_in_body_not_counted',
-            'size_over_refused_552', 'size_within_not_refused_for_size', 'hops_over_refused_554', 'within_limits_queued', 'hops_within_not_looping']
+            'size_over_refused_552', 'size_within_not_refused_for_size', 'hops_over_refused_554', 'within_limits_queued', 'hops_within_not_looping',
+            'hop_limit_blind_to_stuffed_dot']
 
 
 def msgsize(msg):
